@@ -173,7 +173,7 @@ def run_kani(stage, pid, names, extra_flags, timeout_s, jobs, playback=False):
     """Runs one cargo-kani invocation over `names`; returns {name: result}."""
     paths = {harness_path(pid, n): n for n in names}
     cmd = ["cargo", "kani", "-p", LIB, "--exact", "--output-format", "terse",
-           "-Z", "unstable-options", "--harness-timeout", "%ds" % timeout_s, "-j", str(jobs)]
+           "-Z", "unstable-options", "--no-assertion-reach-checks", "--harness-timeout", "%ds" % timeout_s, "-j", str(jobs)]
     cmd += extra_flags
     if playback:
         cmd += ["-Z", "concrete-playback", "--concrete-playback=print"]
@@ -347,6 +347,9 @@ def check(pid, tier, seed):
         if cfg.get("pregen"):
             cov["certificates"] = cfg["pregen"](stage, native_run)
         names = [n for n in select(pid, tier, seed) if not n.startswith("gen_")]
+        if os.environ.get("VERIF_ONLY"):  # development aid: restrict to matching harnesses (evidence then marks it)
+            names = [n for n in names if re.search(os.environ["VERIF_ONLY"], n)]
+            cov["restricted_to"] = os.environ["VERIF_ONLY"]
         entry_of = dict(list_harnesses(pid))
         canaries = [n for n in names if n.endswith("_canary")]
         jobs = int(os.environ.get("VERIF_JOBS", "16"))
@@ -503,6 +506,8 @@ def replay(path):
     stage = Stage([pid])
     try:
         stage.build()
+        if P.PROPS[pid].get("pregen"):
+            P.PROPS[pid]["pregen"](stage, native_run)
         nat = native_replay(stage, rp["entry"], rp["harness"], rp["values"])
     finally:
         stage.cleanup()
